@@ -4,6 +4,7 @@ package main
 
 import (
 	"fmt"
+	"strconv"
 	"go/types"
 	"strings"
 
@@ -266,9 +267,35 @@ func (w *World) cancelCtx(c *Ctx, err Value, cause Value, vc VC) {
 	if c.timer != nil {
 		c.timer.active = false
 	}
+	for _, af := range c.afters {
+		if vc != nil {
+			af.vc.join(vc)
+		}
+		w.runAfterFunc(af)
+	}
+	c.afters = nil
 	for _, ch := range c.children {
 		w.cancelCtx(ch, err, cause, vc)
 	}
+}
+
+type afterFunc struct {
+	fn               Value
+	stopped, started bool
+	lib              bool
+	where            string
+	vc               VC
+}
+
+func (w *World) runAfterFunc(af *afterFunc) {
+	if af.stopped || af.started {
+		return
+	}
+	af.started = true
+	fn := af.fn
+	ng := w.spawn(nil, af.lib, "afterfunc:"+af.where, func(in *Interp) { in.callValue(fn, nil) })
+	ng.vc = af.vc.cp()
+	ng.vc[ng.id] = 1
 }
 
 func (in *Interp) newCtx(parentV Value, kind string) *Ctx {
@@ -820,6 +847,30 @@ func (in *Interp) intrinsic(fn *ssa.Function, args []Value) (Value, bool) {
 				c.timer = tm
 			}
 			return Tuple{w.ctxIface(c), cancelFn{c: c}}, true
+		case "context.AfterFunc":
+			ci := args[0].(Iface)
+			c, ok := ci.v.(*Ctx)
+			if !ok {
+				unsupported("context.AfterFunc on user context")
+			}
+			// find the nearest context that can actually be cancelled
+			x := c
+			for x.kind == "value" && x.parent != nil {
+				x = x.parent
+			}
+			af := &afterFunc{fn: args[1], lib: in.inLib(), where: in.where(), vc: in.g.vc.cp()}
+			in.g.vc[in.g.id]++
+			if x.err != nil {
+				w.runAfterFunc(af)
+			} else {
+				x.afters = append(x.afters, af)
+			}
+			return nativeFn{name: "stop", f: func(in2 *Interp, _ []Value) Value {
+				in2.maybeYield("AfterFunc.stop")
+				was := !af.started && !af.stopped
+				af.stopped = true
+				return cbool(was)
+			}}, true
 		case "context.Cause":
 			ci := args[0].(Iface)
 			c, ok := ci.v.(*Ctx)
@@ -898,6 +949,25 @@ func (in *Interp) intrinsic(fn *ssa.Function, args []Value) (Value, bool) {
 			return tf.iteFP(tf.fpCmp("lt", x, cfp(64, 0)), tf.fpNeg(x), x), true
 		}
 		unsupported("math function %s", name)
+	case "regexp":
+		switch name {
+		case "regexp.MustCompile":
+			return Ptr{obj: w.newObj(Struct{args[0]}, "regexp")}, true
+		}
+		unsupported("regexp function %s (error-message matching is outside the encoded part)", name)
+	case "strconv":
+		if name == "strconv.Atoi" {
+			s, ok := args[0].(Str)
+			if !ok {
+				unsupported("strconv.Atoi on a non-concrete string")
+			}
+			v, err := strconv.Atoi(string(s))
+			if err != nil {
+				return Tuple{cbv(64, 0), in.newErrorString("strconv.Atoi: " + err.Error())}, true
+			}
+			return Tuple{cbv(64, uint64(int64(v))), Iface{}}, true
+		}
+		return nil, false
 	case "math/rand":
 		switch name {
 		case "math/rand.Float64":
